@@ -196,7 +196,15 @@ class BuiltinMixin:
         raise Unsupported(f"getattr with a computed name at line {n.lineno}")
 
     def bi_all(self, st, a, kw, n):
-        raise Unsupported("all()")
+        """all(xs): every element is truthy (a fresh boolean defined by a quantified fact)"""
+        it = self.iter_seq(st, a[0], n)
+        k = fresh_int("k")
+        item = it.item(k)
+        if isinstance(item, tuple):
+            raise Unsupported("all() over tuples")
+        res = z3.Bool(fresh_name("all"))
+        st.assume(res == qforall([k], z3.Implies(z3.And(0 <= k, k < it.length), self.truth(st, item))), definitional=True)
+        return R(st, V(BoolV(res), "bool"))
 
     def bi_Path(self, st, a, kw, n):
         x = a[0]; ty = base_type(x.ty)
